@@ -28,7 +28,7 @@ def opt_names(d):
 
 
 def is_flag(d):
-    return d["kind"] == "bool" or (d["kind"] == "custom" and d["custom"]["isbool"])
+    return d["kind"] == "bool" or (d["kind"] == "custom" and d["custom"]["isbool"] and not d["custom"].get("isboolfalse"))
 
 
 def declared_set(rng, observable=False, env_prob=0.0, nopts=None, nargs=None):
